@@ -237,6 +237,29 @@ def check_misc(ctx):
                     ctx.violate(core.make_violation({'check': 'user-bounds-not-respected', 'bounds': tag}, f'Langmuir with user bounds {bounds}: fitted {k}={o.value.model.params[k]}', {'bounds': bounds}))
             if tag == 'around' and core.relerr(o.value.model.loading(p), n) > 1e-6:
                 ctx.violate(core.make_violation({'check': 'exact-data-not-reproduced', 'model': 'Langmuir', 'with': 'user bounds'}, f'fit with bounds around the generator does not reproduce the data', {'bounds': bounds}))
+    # models with interchangeable sites / terms: bounds that DIFFER between the sites, generators in both site orders
+    pw = numpy.geomspace(0.005, 20.0, 40)
+    for mname, gens, bnd in (
+            ('DSLangmuir', [{'n_m1': 2.0, 'K1': 0.5, 'n_m2': 6.0, 'K2': 8.0}, {'n_m1': 1.0, 'K1': 1.5, 'n_m2': 8.0, 'K2': 15.0}],
+             {'n_m1': (0.0, 3.0), 'K1': (0.0, 2.0), 'n_m2': (3.0, 10.0), 'K2': (2.0, 20.0)}),
+            ('DSLangmuir', [{'n_m1': 6.0, 'K1': 8.0, 'n_m2': 2.0, 'K2': 0.5}],
+             {'n_m1': (3.0, 10.0), 'K1': (2.0, 20.0), 'n_m2': (0.0, 3.0), 'K2': (0.0, 2.0)}),
+            ('TSLangmuir', [{'n_m1': 1.0, 'K1': 0.3, 'n_m2': 2.0, 'K2': 3.0, 'n_m3': 4.0, 'K3': 30.0}],
+             {'n_m1': (0.0, 1.5), 'K1': (0.0, 1.0), 'n_m2': (1.5, 3.0), 'K2': (1.0, 10.0), 'n_m3': (3.0, 6.0), 'K3': (10.0, 100.0)})):
+        for gen in gens:
+            nn = ml.ref_loading(mname, gen, pw)
+            ob = core.call(fit, mname, pw, nn, param_bounds=bnd)
+            ev += 1
+            if not ob.ok:
+                continue
+            nt += 1
+            outside = {k: ob.value.model.params[k] for k, (lo, hi) in bnd.items() if not (lo - 1e-9 <= ob.value.model.params[k] <= hi + 1e-9)}
+            if outside:
+                ctx.violate(core.make_violation({'check': 'user-bounds-not-respected', 'bounds': 'different per site', 'model': mname},
+                                                f'{mname} fitted to data of {gen} with bounds {bnd}: fitted parameters {outside} lie outside their bounds', {'bounds': bnd, 'generator': gen}))
+            elif core.relerr(ob.value.model.loading(pw), nn) > 1e-5:
+                ctx.violate(core.make_violation({'check': 'exact-data-not-reproduced', 'model': mname, 'with': 'bounds different per site'},
+                                                f'{mname} with per-site bounds around the generator {gen} does not reproduce the data (fitted {ob.value.model.params})', {'bounds': bnd}))
     # the bounds are a mapping: the order in which the user writes the keys cannot matter (active bounds, every key order)
     for mname, gen, bnd in (('Langmuir', {'K': 6.0, 'n_m': 4.0}, {'K': (0.5, 100.0), 'n_m': (0.2, 3.2)}),
                             ('Toth', {'n_m': 5.0, 'K': 12.0, 't': 0.7}, {'n_m': (1.0, 4.0), 'K': (0.5, 200.0), 't': (0.3, 1.5)}),
